@@ -587,6 +587,11 @@ def check(run):
     m5_verify_before_serve(run)
     m7_generator_publishes_every_key(run)
     m10_configured_index_published(run)
+    # a KeyDescriptor without `use` is declared for both uses: served for
+    # every requested use (shared with C17.R7)
+    from . import c17
+    from .c02 import _as
+    _as(run, "M12", c17.r7_encryption_key_lookup, "R7")
     from ..common_rules import memo_rule
     memo_rule(run, "M8", {"mdstore", "metadata", "config"}, "metadata lookups")
     td = run.model.func("mdie.to_dict")
